@@ -99,4 +99,17 @@ func TestVerifReplayConnectionListedCoveredHeader(t *testing.T) {
 	if verdict != nil {
 		t.Errorf("the signature does not verify over the request the upstream received (Date header as received: %q): %v", sawDate, verdict)
 	}
+
+	// the signature headers themselves named in Connection: the upstream must still receive a verifying signature
+	reached, verdict = false, nil
+	req2, _ := http.NewRequest("POST", front.URL+"/path?q=1", strings.NewReader("payload"))
+	req2.Header.Set("Connection", "Sso-Signature, kid")
+	resp2, err := http.DefaultTransport.RoundTrip(req2)
+	if err != nil {
+		t.Skipf("round trip: %v", err)
+	}
+	resp2.Body.Close()
+	if reached && verdict != nil {
+		t.Errorf("a request naming the signature headers in Connection reached the upstream without a verifying signature: %v", verdict)
+	}
 }
